@@ -34,9 +34,19 @@ K_SEPARATOR = 'header-string-with-separator-unreadable'
 K_AMPSF = 'refused-pvp-rewrite-replaces-ampsf'
 
 # theorems of lean/SarpyModel/Props/C09W.lean (namespace Sarpy.Props.C09) about Spec.CphdWriter
-REQUIRED_W = []
+REQUIRED_W = [
+    # C09W.lean: single steps, the file-object log over all histories, close
+    'write_after_close_refused', 'close_idempotent', 'run_closed', 'refused_keeps_file', 'rewrite_pvp_refused_mem', 'rewrite_sup_refused_mem',
+    'rewrite_pvp_real_overwrites', 'inv1_init', 'inv1_step', 'inv1_run', 'fo_log_shape', 'flush_delivers', 'close_delivers',
+    'close_delivers_signal_mem', 'close_report_exact', 'close_report_mem_no_signal', 'close_report_unpopulated',
+    # C09Image.lean: the file image over good histories
+    'rdW_append_not_covered', 'rdW_items_covered', 'cellOf_mark', 'inv2_init', 'inv2_putData', 'inv2_putChunk', 'inv2_snapPhase', 'inv2_hdrPhase',
+    'inv2_itemsPhase', 'inv2_flushCore', 'inv2_step', 'inv2_run', 'closedOk_run', 'final_image', 'complete_image', 'order_chunking_independent',
+    # C09Wf.lean: layout => well-formed configuration; the no-rewrite hypothesis is needed
+    'packed_ranges_lower', 'packed_ranges_ordered', 'wf_of_layout', 'rewrite_counter_example']
 # restatements for the CRSD instantiation in lean/SarpyModel/Props/C11W.lean (namespace Sarpy.Props.C11)
-REQUIRED_W11 = []
+REQUIRED_W11 = ['crsd_headerBytes_length', 'crsd_text_file_wellformed', 'crsd_retry_terminates_7', 'chooseCrsd_terminates_7',
+                'crsd_write_after_close_refused', 'crsd_refused_keeps_file', 'crsd_fo_log_shape', 'crsd_close_report_exact', 'crsd_complete_image']
 
 
 class Proxy:
